@@ -132,3 +132,47 @@ Definition run_pipeline (dflt : list float) (T : Z) (obs : list (Z * option (lis
   | None => SL [SZ 3]
   | Some ts => SL [SL (map SF ts); run_store (Some dflt) T ts obs]
   end.
+
+(** ** default_evaluation_times = "Full" *)
+
+Definition zrange (n : Z) : list Z := map Z.of_nat (seq 0 (Z.to_nat n)).
+Definition trunc0 (x : float) : Z := match f_trunc x with Some z => z | None => 0 end.
+
+(** [np.linspace(0, stop, N, dtype=int)]: [floor(arange(N) * (stop / (N-1)))],
+    last element forced to [stop] *)
+Definition linspace_int (stop N : Z) : list Z :=
+  if N <=? 0 then []
+  else if N =? 1 then [0]
+  else
+    let step := (f_of_dur stop / f_of_dur (N - 1))%float in
+    map (fun i => if i =? N - 1 then stop else trunc0 (f_of_dur i * step)%float) (zrange N).
+
+(** Solver times (relative) with "Full":
+    - no observable has own times: [set_evaluation_times("Full")] takes the
+      Hamiltonian's sampling times ([arange(T+1)/1000] sub-sampled with
+      [int(rate * (T+1))] points) united with 0 and the end;
+    - otherwise [_get_legacy_evaluation_times] replaces "Full" by
+      [linspace(0, T-1, int(rate*T), dtype=int) / T], MERGES the observables'
+      own times into it, and hands the array to [set_evaluation_times]. *)
+Definition full_rel_times (rate : float) (extras : list float) (T : Z) : option (list float) :=
+  match extras with
+  | [] =>
+      let N := trunc0 (rate * f_of_dur (T + 1))%float in
+      let us := map (fun i => (f_of_dur i / f_1e3)%float) (linspace_int T N) in
+      Some (map (rel_time T) (union1d us [zero; (f_of_dur T / f_1e3)%float]))
+  | _ =>
+      let N := trunc0 (rate * f_of_dur T)%float in
+      let grid := map (fun i => (f_of_dur i / f_of_dur T)%float) (linspace_int (T - 1) N) in
+      let rel := union1d grid extras in
+      match set_eval_times (map (fun r => ((r * f_of_dur T) * f_1em3)%float) rel) T with
+      | None => None
+      | Some us => Some (map (rel_time T) us)
+      end
+  end.
+
+Definition run_pipeline_full (rate : float) (T : Z) (obs : list (Z * option (list float))) : sv :=
+  let extras := fold_right (fun o acc => match snd o with Some l => l ++ acc | None => acc end) [] obs in
+  match full_rel_times rate extras T with
+  | None => SL [SZ 3]
+  | Some ts => SL [SL (map SF ts); run_store None T ts obs]
+  end.
